@@ -32,8 +32,9 @@
 (* Defects (CONSTANT): the code as it is = all of them; {} = the repaired design.     *)
 (*   "UnclaimedActivate"  tryClaimGrain: AlreadyExists followed by a GetGrain that    *)
 (*                        finds nothing returns (false, nil) and the caller activates *)
-(*                        WITHOUT a claim.  Repair (FIXED in /repo, claimGrain): the  *)
-(*                        claim is attempted again, at most MaxClaimTries times.      *)
+(*                        WITHOUT a claim (known finding; existing unit tests codify  *)
+(*                        it).  Repair: the claim is attempted again, at most         *)
+(*                        MaxClaimTries times.                                        *)
 (*   "DeleteBeforeRemove" deactivate deletes the local grains entry before it removes *)
 (*                        the registry record, so a re-activation on the same node    *)
 (*                        (owner = local, no claim) gets its record removed.  Repair: *)
@@ -55,7 +56,7 @@ CONSTANTS Nodes, Threads, Kind, Org, MaxHops, MaxFails, Defects,
 
 NoNode == "-"
 NoThread == "-"
-MaxClaimTries == 3     \* actor/grain_engine.go maxGrainClaimAttempts
+MaxClaimTries == 3     \* bound of the repaired claim loop
 
 VARIABLES reg,      \* registry record of the identity: owner node or NoNode
           gmap,     \* [Nodes -> Nat]  grains map: process id registered under the identity (0 = none)
